@@ -201,7 +201,10 @@ int main(int argc, char **argv)
 					for (n = 2; n <= 4096; n++) {
 						int r, at, full;
 						if (!(n <= 40 || n % step == (kind + qn) % step || (n % 57) <= 1 || (n & (n - 1)) == 0 || n >= 4090 ||
-						      (n >= 200 && n <= 260) || (n >= 1180 && n <= 1210)))
+						      (n >= 200 && n <= 260) || (n >= 1180 && n <= 1210) ||
+						      /* around every multiple of what one host-name record carries (Base32 / Base64 / Base128) */
+						      (n % 153) <= 2 || (n % 153) == 152 || (n % 183) <= 2 || (n % 183) == 182 ||
+						      (n % 214) <= 2 || (n % 214) == 213))
 							continue;
 						gen(pay, n, kind, seed + n);
 						wirelen = -1;
